@@ -166,6 +166,27 @@ P('C02',
   thorough=dict(cases=1200000, max_size=12000, max_seconds=1800, fuzz=dict(seconds=300, jobs=8, max_len=12000)),
   )
 
+P('C03',
+  level='fault_enumeration',
+  extra_c=['ttx_shim.c'],
+  watchdog=900,
+  technique='property-based testing with exhaustive fault injection: generated base transmissions, every single-bit fault of every Hamming protected byte / triplet enumerated, double-bit header / address / designation faults enumerated, parity and burst faults sampled; metamorphic oracle against reference runs (fault-free, packet dropped, pages in progress abandoned)',
+  rule='base = serial or parallel transmission of 1-3 magazines x 1-2 pages over 2-3 cycles with and without erase (rows from the C02 grammar, X/26 character '
+       'replacements, X/27/0, X/27/4, X/28/0, M/29/0, 8/30 format 1 and 2); faults per base: every single bit of every Hamming 8/4 byte and 24/18 triplet, all 28 '
+       'in-byte double errors of every address / designation byte and of the eight header bytes, parity errors in every text row, sampled bursts with dropped packets. '
+       'Non-trivial base: contains an enhancement or service packet and a retransmission without erase; distinct = hash of consumed choices. The histogram counts the fault runs per class.',
+  level_text='Fault enumeration over generated transmissions with a metamorphic oracle: (1) each single-bit fault in a Hamming protected byte or triplet must leave '
+             'the set of cached pages, every fetched page (levels 1.5 and 2.5: all cells, colour map, links) and the complete event log identical to the fault-free run; '
+             '(2) an uncorrectable address or designation byte must give exactly the state and events of the run without that packet; (3) an uncorrectable header byte '
+             'must give the cached state of a run in which the header\'s own page and some subset of the pages in progress are abandoned, nothing else; (4) a text row '
+             'with parity errors must leave the state of the run without that row (or with only the damaged positions keeping earlier content); (5) bursts with up to two '
+             'bit errors per protected byte and dropped packets never store or announce a page that was not transmitted. Single-bit class exhaustive per base (reported when a base had to be sampled).',
+  level_note='Trusted: transmitter primitives (models/ttx_enc.h, ttx_tx.h, bsd_enc.h). The oracle is differential against the same decoder, so it decides error handling, not Level 1 rendering (that is C02). Pages that carry X/26 data are not judged in the parity class (the statement excepts positions overridden by X/26). M/29 and 8/30 packets are sent where no page is in progress.',
+  design_ref='DESIGN.md section 2, C03',
+  quick=dict(cases=160, max_size=6000, max_seconds=150),
+  thorough=dict(cases=4000, max_size=6000, max_seconds=1800),
+  )
+
 NOT_YET = {}
 
 
